@@ -547,6 +547,9 @@ def _make_init(cls: t.Type[PaneBase], fields: t.Sequence[Field]):
         if from_dict is not None:
             for (k, v) in from_dict.items():
                 object.__setattr__(self, k, v)
+            for f in self.__pane_info__.fields:
+                if not f.init and f.default_factory is not None and f.name not in from_dict:
+                    object.__setattr__(self, f.name, f.default_factory())
             object.__setattr__(self, PANE_SET_FIELDS, set(from_dict.keys()))
             if hasattr(self, POST_INIT):
                 getattr(self, POST_INIT)()
@@ -562,6 +565,9 @@ def _make_init(cls: t.Type[PaneBase], fields: t.Sequence[Field]):
 
         for f in self.__pane_info__.fields:
             if not f.init:
+                # like dataclasses: a plain default is found on the class, a default factory is called here
+                if f.default_factory is not None:
+                    object.__setattr__(self, f.name, f.default_factory())
                 continue
             if f.name in bound_args:
                 val = bound_args[f.name]
